@@ -238,6 +238,20 @@ class DictField(Field):
 
         return DictProxy(cfg, self, value)
 
+    def validate(self, cfg: Config, value: Any) -> Any:
+        """
+        Run the validation chain. The field's validator may hand back a new dict: it is validated
+        like the value that was given, so that the configuration holds a dict that keeps validating
+        its entries.
+
+        :param cfg: current config
+        :param value: value to validate
+        """
+        value = super().validate(cfg, value)
+        if self.validator and value is not None:
+            value = self._validate(cfg, value)
+        return value
+
     def __setdefault__(self, cfg: Config) -> None:
         default = self.default
         if default is not None:
